@@ -5,7 +5,7 @@ run through the quick checks of the properties anchored in that file with VERIF_
 never touched and no evidence is written).  Prints caught / inconclusive / SURVIVED with the diff of each survivor."""
 import sys, os, ast, random, subprocess, json, copy, time, difflib
 V = os.path.dirname(os.path.dirname(os.path.abspath(__file__)))
-WT = '/tmp/mut-wt'
+WT = '/tmp/mut-wt-%d' % os.getpid()
 PY = '/venv/bin/python'
 MAP = {
     'crysp/bits.py': ['C07', 'C08'], 'crysp/poly.py': ['C16'], 'crysp/padding.py': ['C09', 'C14'], 'crysp/sha.py': ['C01', 'C04'], 'crysp/md.py': ['C01', 'C17'],
